@@ -8,6 +8,7 @@ mod c04;
 mod c05;
 mod c06;
 mod c07;
+mod c14;
 mod c17;
 mod fake;
 
@@ -23,6 +24,7 @@ fn main() {
         "C05" => c05::run(&args),
         "C06" => c06::run(&args),
         "C07" => c07::run(&args),
+        "C14" => c14::run(&args),
         "C17" => c17::run(&args),
         other => {
             eprintln!("vl-core: unknown property {}", other);
